@@ -170,12 +170,8 @@ inline validation_errc ipv4_parse(const CharT* first, const CharT* last, uint32_
     //    1. IPv4-empty-part validation error. (TODO-WARN)
     //    2. If parts’s size is greater than 1, then remove the last item from parts.
     int part_count = dot_count + 1;
-    if (dot_count > 0 && part[dot_count] == last) {
+    if (dot_count > 0 && part[dot_count] == last)
         --part_count;
-    } else {
-        // the part[part_count] - 1 must point to the end of last part:
-        part[part_count] = last + 1;
-    }
     // 3. If parts’s size is greater than 4, IPv4-too-many-parts validation error, return failure
     if (part_count > 4)
         return validation_errc::ipv4_too_many_parts;
@@ -183,7 +179,9 @@ inline validation_errc ipv4_parse(const CharT* first, const CharT* last, uint32_
     // IPv4 numbers
     uint32_t number[4];
     for (int ind = 0; ind < part_count; ++ind) {
-        const auto res = ipv4_parse_number(part[ind], part[ind + 1] - 1, number[ind]);
+        // the end of a part is the '.' before the next part, or the end of input for the last part
+        const CharT* const part_end = ind < dot_count ? part[ind + 1] - 1 : last;
+        const auto res = ipv4_parse_number(part[ind], part_end, number[ind]);
         // 5.2. If result is failure, IPv4-non-numeric-part validation error, return failure.
         if (res != validation_errc::ok) return res;
         // TODO-WARN: 5.3. If result[1] is true, IPv4-non-decimal-part validation error.
